@@ -1,3 +1,4 @@
+import Cctp.Lemmas.Batch
 import Cctp.Spec.Toy
 import Cctp.Lemmas.Shapes
 import Cctp.Lemmas.Frame
@@ -187,5 +188,12 @@ theorem burned_eq_sum (ext : Ext) (cfg : Cfg) (h : History) (w : World) :
 example : ∃ o, depositForBurn Toy.ext Toy.cfg Toy.st Toy.led Toy.alice (some 5) 0 (List.replicate 32 9) Toy.denom [] = .ok o :=
   (Toy.isOk_iff _).mp (by decide +kernel)
 example : ∃ o, handle Toy.ext Toy.cfg Toy.st Toy.led Toy.send = .ok o := (Toy.isOk_iff _).mp (by decide +kernel)
+
+
+/-- the same over any list of multi-message transactions. -/
+theorem burned_eq_sum_txs (ext : Ext) (cfg : Cfg) (txs : List Txn) (w : World) (hs : w.settle = w) :
+    totalBurnt (txResults ext cfg w txs) = totalDeposited (committed ext cfg w txs) (txResults ext cfg w txs) := by
+  rw [txResults, runTxs_results ext cfg txs w hs]
+  exact burned_eq_sum ext cfg _ w
 
 end Cctp.C05
